@@ -158,7 +158,7 @@ Goal True. idtac "ASSUME C15_tie_basic_filter". Abort.
 Print Assumptions C15_tie_basic_filter.
 
 Theorem C15_tie_single_copy : forall I cv m,
-  single_copy_cv I cv m = if single_copy_zero (pcn I (fst m)) then 0%Q else single_copy_val (inZ (total cv m)) (pcn I (fst m)).
+  (single_copy_cv I cv m == if single_copy_zero (pcn I (fst m)) then 0%Q else single_copy_val (inZ (total cv m)) (pcn I (fst m)))%Q.
 Proof. exact single_copy_major_tied. Qed.
 Goal True. idtac "ASSUME C15_tie_single_copy". Abort.
 Print Assumptions C15_tie_single_copy.
